@@ -139,6 +139,40 @@ def decode_closure(P, closure_path):
         for ev in path_branches(st):
             o['conds'].append((resolve(st, ev[2]), branch_truth(ev)))
         outs.append(o)
+    # `if v < K { 0 } else { v - K }` is `v.saturating_sub(K)` written out: the two outcomes are merged into the one the rules know
+    if len(outs) == 2 and all(o.get('kind') == 'Size' for o in outs) and outs[0]['target'] == outs[1]['target']:
+        zero = [o for o in outs if fold(o['size'])[0] == 'const' and fold(o['size'])[1] == 0]
+        diff = [o for o in outs if o not in zero]
+        if len(zero) == 1 and len(diff) == 1:
+            d_ = unwrap_cast(fold(diff[0]['size']))
+            if d_[0] == 'bin' and d_[1].replace('WithOverflow', '') == 'Sub' and fold(d_[3])[0] == 'const':
+                K = fold(d_[3])[1]
+                guard = [c for c, truth in zero[0]['conds'] if strip(c)[0] == 'bin' and strip(c)[1] == 'Lt' and fold(strip(c)[3])[0] == 'const'
+                         and fold(strip(c)[3])[1] == K and truth and same_value(strip(c)[2], d_[2])]
+                if guard:
+                    outs = [{'kind': 'Size', 'target': outs[0]['target'], 'conds': [],
+                             'size': ('call', 'core::num::<impl usize>::saturating_sub', 0, (d_[2], ('const', K, str(K))))}]
+    return outs
+
+
+def decode_fn_option(P, fn_path):
+    """a DynOption filter given as a named function `fn f(v: &T) -> MessageOption`: decoded like a closure, its value parameter renumbered to the
+    closure convention (parameter 2)"""
+    outs = decode_closure(P, fn_path)
+    if outs is None:
+        return None
+
+    def ren(e):
+        if e == ('param', 1):
+            return ('param', 2)
+        if isinstance(e, tuple):
+            return tuple(ren(x) if isinstance(x, tuple) else x for x in e)
+        return e
+    for o in outs:
+        for k in ('size', 'expr'):
+            if o.get(k) is not None:
+                o[k] = ren(o[k])
+        o['conds'] = [(ren(c), t) for c, t in o.get('conds', [])]
     return outs
 
 
@@ -280,6 +314,9 @@ def fill_details(P, f, st):
                 if cl[0] == 'closure':
                     f.closure = cl[1]
                     f.option = decode_closure(P, cl[1])
+                elif cl[0] == 'fnconst' and (cl[1] in P.bodies):
+                    f.closure = cl[1]
+                    f.option = decode_fn_option(P, cl[1])
                 f.inner_expr = n[3][0]
     if f.kind == 'Array':
         for n in walk(e):
